@@ -351,6 +351,14 @@ class MaskSplitter(DirectModule):
             else:
                 input_mask = mask * (xv - yv <= 0)
                 target_mask = mask * (xv - yv > 0)
+        if not self.keep_acs:
+            # The protected central region always belongs to the input mask.
+            protected = torch.zeros_like(mask, dtype=torch.bool)
+            protected[
+                center_x - self.acs_region[0] // 2 : center_x + self.acs_region[0] // 2,
+                center_y - self.acs_region[1] // 2 : center_y + self.acs_region[1] // 2,
+            ] = True
+            input_mask, target_mask = input_mask | (mask & protected), target_mask & (~protected)
         if self.keep_acs:
             input_mask, target_mask = input_mask | acs_mask, target_mask | acs_mask
 
